@@ -53,7 +53,7 @@ def work(args):
   for k in range(-1, 9):
     tau = Fraction(1, 2 ** k) if k >= 0 else Fraction(2)
     s = z3.Solver()
-    s.set('timeout', 60000)
+    s.set('timeout', int(os.environ.get('C08_CAL_TIMEOUT', '60')) * 1000)
     s.add(*boxc)
     s.add(*extra)
     s.add(mk(tau))
@@ -72,7 +72,7 @@ def main():
   for f in c08.CONV:
     f = dict(f)
     tag = f.pop('tag')
-    if only and tag.split('@')[0] not in only:
+    if only and tag.split('@')[0] not in only and tag not in only:
       continue
     for N in (f.pop('slice_iters', None) or (1, 2, 4, 8, 16)):
       jobs.append((tag, f, N, 'viol'))
